@@ -486,6 +486,23 @@ func checkMessage(c *enum.Ctx, s spec, w *wallet.Wallet, msgCell *cell.Cell, wan
 			}
 		}
 	}
+	// the very same message cell decoded once more (a consumer that verifies, extracts and later decodes the same
+	// parsed cell): the answer must not depend on what was read from the cell tree before
+	if raws2, err2 := wallet.ExtractRawMessages(s.ver, t); err == nil {
+		if err2 != nil {
+			c.Fail("ExtractRawMessages-second-call:"+tag, "a second ExtractRawMessages on the same cell fails: %v", err2)
+		} else if len(raws2) != len(raws) {
+			c.Fail("ExtractRawMessages-second-call:"+tag, "a second ExtractRawMessages on the same cell returns %d messages, the first returned %d", len(raws2), len(raws))
+		} else {
+			for i := range raws2 {
+				rc, err := conv.FromTongo(raws2[i].Message)
+				if err != nil || rc.ReprHash() != want[i].hash || raws2[i].Mode != want[i].mode {
+					c.Fail("ExtractRawMessages-second-call:"+tag, "a second ExtractRawMessages on the same cell returns a different message %d", i)
+					break
+				}
+			}
+		}
+	}
 	t.ResetCounters()
 	var gotID bits.Bits
 	var gotUntil, gotSeqno uint32
